@@ -245,3 +245,19 @@ def check(facts, rep, tier, cfg):
                 "that needs `%s` blocks its thread until this future is resumed" % (fld, loc_str(b.term(y)["loc"]), fld))
     if not held:
         rep.ok("C10.R5", "no-guard-across-await", "", "no blocking guard is live at a suspension point")
+    # ---- R6 the overrun test is made against our own window: the inbound queue is sized from the local rwnd, never from peer input
+    rep.rule("C10.R6", "the per-stream inbound queue capacity (what makes `Push beyond the window` detectable, and what mpsc::channel panics on "
+                       "when 0) is the local rwnd, not a value carried by a peer frame (= C03.R4 inbound-capacity)")
+    import rules_c03 as _c03
+    sub = type(rep)(rep.prop, rep.tier, rep.config)
+    _c03.check_r3_r4(facts, sub, crate, Inter(facts))
+    k6 = 0
+    for i in sub.instances:
+        if "inbound-capacity" in i["key"]:
+            k6 += 1
+            rep.ok("C10.R6", i["key"], i["where"], i["detail"], nontrivial=False)
+    for v in sub.violations:
+        if "inbound-capacity" in v["key"]:
+            k6 += 1
+            rep.bad("C10.R6", v["key"].split("/", 1)[1], v["where"], v["msg"])
+    rep.floor("C10.R6", "inbound queue constructions", k6, 1)
